@@ -78,6 +78,9 @@ def _worker_main(conn, fn, init):
                     signal.setitimer(signal.ITIMER_REAL, 0)
                     out.append((idx, 'JOBERROR', traceback.format_exc()))
             conn.send(('DONE', out))
+            # a job may ask for this worker to be retired (e.g. it left a runaway thread behind)
+            if any(isinstance(r, dict) and r.get('_retire') for _, st_, r in out if st_ == 'OK'):
+                return
     except (EOFError, KeyboardInterrupt, BrokenPipeError):
         pass
     finally:
@@ -111,7 +114,7 @@ class _Worker:
 
 
 def run_jobs(fn, jobs, init=None, nproc=None, chunk=8, job_deadline=30.0,
-             on_result=None, stop=None):
+             on_result=None, stop=None, abort=None):
     """Run fn(job) for every job (an iterable) on supervised workers.
 
     Calls on_result(index, status, result) in the parent for every job, where
@@ -176,6 +179,8 @@ def run_jobs(fn, jobs, init=None, nproc=None, chunk=8, job_deadline=30.0,
             busy = [w for w in workers if w.chunk is not None or not w.ready]
             if not busy and exhausted and not retry:
                 break
+            if abort is not None and abort():
+                break               # give up on the jobs in flight as well (their workers are killed below)
             conns = {w.conn: w for w in workers}
             ready = _wait(list(conns), timeout=0.5)
             now = time.time()
@@ -192,12 +197,18 @@ def run_jobs(fn, jobs, init=None, nproc=None, chunk=8, job_deadline=30.0,
                 elif kind == 'INITERR':
                     raise RuntimeError('worker initialiser failed:\n' + payload)
                 elif kind == 'DONE':
+                    retire = False
                     for idx, status, res in payload:
                         done += 1
+                        if status == 'OK' and isinstance(res, dict) and res.get('_retire'):
+                            retire = True
                         if on_result:
                             on_result(idx, status, res)
                     w.chunk = None
-                    give(w)
+                    if retire:
+                        handle_death(w)          # replace the worker; nothing is lost (chunk is None)
+                    else:
+                        give(w)
             for w in list(workers):
                 if w.chunk is not None and w.deadline is not None and now > w.deadline:
                     handle_death(w)
